@@ -88,11 +88,11 @@ PROPS = {}
 
 PROPS["C08"] = {
     "level": "proof",
-    "verus": [{"unit": "skip_number", "rlimit": 200}],
-    "kani": [],
+    "verus": [{"unit": "skip_number", "rlimit": 200}, {"unit": "serde_access", "rlimit": 200}],
+    "kani": K_NUMBER,
     "trusted_base": [T1, T2, T6, T8, VSTD, PERR,
                      "ryu/itoa produce shortest round-tripping text and the float parser reads it back (T4,T5) — NOT proved"],
-    "level_text": "Verus proof (all inputs, unbounded length) that the real number skipper accepts exactly the RFC 8259 number grammar and returns the verbatim literal; float/integer text round-trip through ryu/itoa is NOT proved (assumed)",
+    "level_text": "Verus proof (all inputs, unbounded length) that the real number skipper accepts exactly the RFC 8259 number grammar and returns the verbatim literal, and that deserialize_rawnumber hands the RawNumber visitor only text that is exactly one grammatical number literal of the input (bare, or quoted with the closing quote immediately after it); Kani bounded proof that negative zero keeps its sign; float/integer text round-trip through ryu/itoa is NOT proved (assumed)",
     "level_note": "Reader contract T1 and SIMD lane contracts T2 assumed in this unit (T2 discharged by Kani under C17); as_str view; ryu/itoa/float parser assumed (T4,T5)",
     "technique": TECH_V,
     "explanation": "raw-number half: skip_number returns exactly data[start..number_end) and Ok iff the RFC 8259 number grammar matches",
@@ -100,12 +100,13 @@ PROPS["C08"] = {
 
 PROPS["C02"] = {
     "level": "proof",
-    "verus": [{"unit": "recognisers", "rlimit": 200}, {"unit": "decoder", "rlimit": 300}],
+    "verus": [{"unit": "recognisers", "rlimit": 200}, {"unit": "decoder", "rlimit": 300}, {"unit": "serde_access", "rlimit": 200}],
     "kani": K_STRTAB + K_WS,
     "trusted_base": [T1, T2, T3, T4, T6, T8, VSTD, KANI, PERR,
                      "UTF-8 prevalidation (simdutf8) in Read::new_in is T4",
                      "fully-decoding half: parse_value2/parse_array2/parse_object2 are proved; their leaves Parser::parse_number (wrapper around the verified sonic_number::parse_number) and parse_str (scanning half verified in unit strings) enter through assumed contracts; surrogate pairing / float finiteness make the decoder reject MORE than the grammar, which the statement permits",
-                     "the in-place twin parse_value/parse_array/parse_object (PaddedSliceRead, DOM whole-input path) and the serde SeqAccess/MapAccess machines are not under contract"],
+                     "serde SeqAccess::next_element_seed / MapAccess::next_key_seed / next_value_seed / end_map / end_seq: the comma-colon machine is proved to start the (arbitrary) element deserializer only at the grammar-prescribed position and to reject every other separator situation; the element deserializers themselves are programs (C04) and the per-type entry points of `impl Deserializer` are not under contract",
+                     "the in-place twin parse_value/parse_array/parse_object (PaddedSliceRead, DOM whole-input path) is not under contract"],
     "level_text": "Verus proof that the fully-decoding parser parse_value2/parse_array2/parse_object2 succeeds only on, and consumes exactly, the grammar it is specified to consume, that this grammar followed by the trailing check is exactly RFC 8259 (theorem_text_l_is_rfc8259), and — for every input and length — that the validate-and-skip recogniser (skip_one, skip_array, skip_object, skip_string, skip_escaped_chars, skip_number, parse_literal, skip_space incl. its SIMD cache, parse_trailing) returns Ok iff the RFC 8259 grammar (specs/json_grammar.rs) matches, with the exact end offset; the table/lane contracts it assumes are discharged by Kani",
     "level_note": "covers the validate-and-skip half of the statement through the checked reader `Read`; the serde visitor layer and the in-place DOM parser are outside (T1 for PaddedSliceRead)",
     "technique": TECH_VK,
